@@ -152,6 +152,13 @@ func makeAnnoCase(r *fw.Rng, thorough bool, format, form string, vp gen.VarProfi
 		}
 		ac.annoTxt = gen.RenderGFFSeq(r, ac.an, withFasta, fastaSeq)
 	}
+	ac.annoTxt = noFinalNL(r, ac.annoTxt)
+	if ac.msaTxt != "" {
+		ac.msaTxt = noFinalNL(r, ac.msaTxt)
+	}
+	if ac.refTxt != "" {
+		ac.refTxt = noFinalNL(r, ac.refTxt)
+	}
 	if opts.CRLF && r.Chance(0.12) {
 		// an annotation file that went through a Windows editor
 		ac.annoTxt = strings.ReplaceAll(ac.annoTxt, "\n", "\r\n")
